@@ -166,7 +166,7 @@ static bool run_case(int k, const std::string & spec)
    }
    if (g_fail.empty()) printf("%d ok\n", k);
    else for (size_t i=0; i<g_fail.size(); i++) {bool dup = false; for (size_t j=0; j<i; j++) if (g_fail[j] == g_fail[i]) dup = true; if (!dup) printf("%d ORACLE FAIL %s\n", k, g_fail[i].c_str());}
-   (void) expected;
+   if (getenv("PULSE_SRV_DEBUG")) fprintf(stderr, "case %d: %d Pulse() calls served\n", k, expected);
    fflush(stdout);
    return true;
 }
